@@ -852,6 +852,33 @@ def run_cli(cx):
     # ---------------- kind F: non-zero generations, several --json-object selections per run
     run_generations(cx, wd, sp)
 
+    # ---------------- kind G: semantically equal JSON texts (member order, white space, number and string spellings) import alike
+    import c14_import
+    # one generated document rewritten with object streams: most of its objects are compressed objects, resolved lazily
+    osdocs = []
+    for dd in [dd for dd in docs if dd["kind"] == "generated"][:1 if quick else 4]:
+        p = os.path.join(wd, dd["name"] + "-objstm.pdf")
+        rc, so, se = q(["--static-id", "--object-streams=generate", dd["path"], p], cwd=wd)
+        if rc in (0, 3):
+            osdocs.append({"name": dd["name"] + "-objstm", "path": p, "doc": None, "sig": "", "kind": "generated-objstm"})
+    # ... and one with enough objects for several object streams: those that hold no page-tree object are still unresolved
+    # when --update-from-json runs
+    for j in range(1 if quick else 3):
+        d = pdfgen.page_doc(1, marker="M")
+        many = [d.add({b"K": k, b"S": Str(b"object %d" % k), b"A": [k, Real("%d.5" % k)]}) for k in range(rng.choice([130, 180, 230]))]
+        d.objects[1][b"ZMany"] = many      # sorts after /Pages: the page tree is numbered first and shares no object stream with the last of these
+        data, _ = pdfgen.write_classic(d, sp=sp)
+        p0 = os.path.join(wd, "many%d.pdf" % j)
+        open(p0, "wb").write(data)
+        p = os.path.join(wd, "many%d-objstm.pdf" % j)
+        rc, so, se = q(["--static-id", "--object-streams=generate", p0, p], cwd=wd)
+        if rc in (0, 3):
+            osdocs.append({"name": "many%d-objstm" % j, "path": p, "doc": None, "sig": "", "kind": "generated-objstm"})
+    vdocs = osdocs + [dd for dd in docs if dd["kind"] == "generated-stream-layer"][:1 if quick else 3] + \
+            [dd for dd in docs if dd["kind"] == "generated"][:2 if quick else 20] + \
+            [dd for dd in docs if dd["kind"] == "corpus"][:0 if quick else 40]
+    c14_import.run_cli_variants(cx, vdocs, wd)
+
 
 # ------------------------------------------------------------------ objects with non-zero generations, several --json-object per run
 
